@@ -1,6 +1,7 @@
 import Pcore.Proofs.LatMono
 import Pcore.Proofs.LatEq
 import Pcore.Proofs.LatTransAll
+import Pcore.Proofs.LatTransGAll
 set_option linter.unusedSimpArgs false
 /-!
 # C03 — Assignability is a preorder, monotone per constructor, consistent with equality
@@ -38,7 +39,15 @@ Full statement / proved / missing
   on which the loop is transitive because the bound of the second loop is the smaller one (`tupZip_trans`).  The Tuple stage was NOT
   provable of the original code: Array ⊒ Tuple and Tuple ⊒ Array compared declared types at positions no instance can have, and a typed
   Tuple rejected every untyped Tuple of non-zero size — three genuine transitivity defects, repaired in /repo (1901e0c).
-  Missing: Struct with the rule off, Data/RichData.  Transitivity is also checked on the implementation on related triples, sampled
+  STAGE 3, `C03_trans_struct_partial` PROVED, unbounded: the same on the fragment `Ty.TS sfh` = `Ty.TF` plus, with the Struct-from-Hash
+  rule OFF (`sfh = false`), Struct with members of any nesting, anywhere in the three terms: Struct ⊒ Struct is rewritten as a relation
+  between member lists (`struct_recv_iff`: every member the other Struct has is accepted on key optionality and value type, every member
+  it lacks is optional, every member of the other Struct is one of the receiver's — the count `structAll = distinctCount`), which composes
+  (`struct_trans`); the receiver's size range [#required, #members] includes the accepted Struct's (`struct_sub_size`), which carries
+  Collection ⊒ Struct and Hash ⊒ Struct; the member loop of Hash ⊒ Struct composes with Hash ⊒ Hash and with Struct ⊒ Struct
+  (`members_trans`).  All three terms well-formed (member names pairwise different).  No case of the Struct rules turned out intransitive
+  with the rule off.
+  Missing: Iterable, Data/RichData.  Transitivity is also checked on the implementation on related triples, sampled
   universe triples and EVERY triple of the positional universe (`lat.Positional`).
 * no fault: `asg` and `tyEq` are total functions without a fault constructor; the nil dereference of `Tuple.Equals` was repaired (5e6c612).
 -/
@@ -157,6 +166,41 @@ example (cfg : Cfg) :
     asg cfg true (.array (.int ⟨0, 9⟩) ⟨0, 1⟩) (.tuple [.int ⟨0, 9⟩, .str] (some ⟨1, 1⟩)) = true := by
   refine ⟨by simp [Ty.TF], ?_, ?_, ?_⟩ <;>
     simp [asg, asgRecv, tupZip, sameNullary, tupleSize, Rng.exact, Rng.sub]
+
+/-! ### transitivity, stage 3: Struct inside the fragment when the Struct-from-Hash rule is off -/
+/-- Transitivity on the fragment `Ty.TS sfh` = `Ty.TF` plus, for `sfh = false`, Struct with members of any nesting: Struct ⊒ Struct
+    (member lookup by name, optional / required keys, value types, the count of matched members), Collection / Hash ⊒ Struct (size
+    range `[#required, #members]`, the member loop through key and value type), Variant / Optional / NotUndef / Any / Type[..] around
+    them; a Struct accepts nothing but Structs when the rule is off.  For `sfh = true` the fragment has no Struct and this is
+    `C03_trans_partial`. -/
+theorem C03_trans_struct_partial (cfg : Cfg) (sfh : Bool) (hl : ∀ s, (cfg.lower s).length = s.length) (a b c : Ty)
+    (fa : a.TS sfh) (fb : b.TS sfh) (fc : c.TS sfh) (wa : Ty.WF cfg a) (wb : Ty.WF cfg b) (wc : Ty.WF cfg c)
+    (h1 : asg cfg sfh a b = true) (h2 : asg cfg sfh b c = true) : asg cfg sfh a c = true :=
+  transG cfg sfh hl a b c fa fb fc wa wb wc h1 h2
+
+/-- non-vacuity: Hash[String, Variant[Integer,String], 1, 2] ⊒ Struct[{a=>Integer, Optional[b]=>String}] ⊒ Struct[{a=>Integer[0,9]}]
+    (the optional member is dropped, the required one narrowed), all three in the fragment and well-formed -/
+example (cfg : Cfg) :
+    (Ty.hash .str (.variant [.int Rng.all, .str]) ⟨1, 2⟩).TS false ∧
+    (Ty.struct [("a", false, .int Rng.all), ("b", true, .str)]).TS false ∧ (Ty.struct [("a", false, .int ⟨0, 9⟩)]).TS false ∧
+    Ty.WF cfg (.struct [("a", false, .int Rng.all), ("b", true, .str)]) ∧
+    asg cfg false (.hash .str (.variant [.int Rng.all, .str]) ⟨1, 2⟩) (.struct [("a", false, .int Rng.all), ("b", true, .str)]) = true ∧
+    asg cfg false (.struct [("a", false, .int Rng.all), ("b", true, .str)]) (.struct [("a", false, .int ⟨0, 9⟩)]) = true := by
+  refine ⟨by simp [Ty.TS], by simp [Ty.TS], by simp [Ty.TS], by simp [Ty.WF], ?_, ?_⟩
+  · simp [asg, asgRecv, asgAnyL, sameNullary, asgMembers, structSize, Rng.sub, Rng.all, isStringFamily]
+  · simp [asg, asgRecv, sameNullary, structAll, structMember, distinctCount, Rng.sub, Rng.all, I64.min, I64.max]
+
+/-- non-vacuity, nested: Variant[Struct[{a=>Struct[{x=>Scalar}]}], Undef] ⊒ Optional[Struct[{a=>Struct[{x=>String}]}]] ⊒
+    Struct[{a=>Struct[{x=>Enum['p']}]}] -/
+example (cfg : Cfg) :
+    (Ty.variant [.struct [("a", false, .struct [("x", false, .scalar)])], .undef]).TS false ∧
+    asg cfg false (.variant [.struct [("a", false, .struct [("x", false, .scalar)])], .undef])
+      (.optional (.struct [("a", false, .struct [("x", false, .str)])])) = true ∧
+    asg cfg false (.optional (.struct [("a", false, .struct [("x", false, .str)])]))
+      (.struct [("a", false, .struct [("x", false, .enum ["p"] false)])]) = true := by
+  refine ⟨by simp [Ty.TS], ?_, ?_⟩
+  · simp [asg, asgRecv, asgAnyL, sameNullary, structAll, structMember, distinctCount, isStringFamily]
+  · simp [asg, asgRecv, asgAnyL, sameNullary, structAll, structMember, distinctCount, isStringFamily]
 
 def C03_trans : Prop :=
   ∀ (cfg : Cfg) (sfh : Bool) (a b c : Ty), Ty.WF cfg a → Ty.WF cfg b → Ty.WF cfg c →
